@@ -59,8 +59,10 @@ def targeted(n=2):
     }}
 
 
-def collector(nw=2, expected=("A", "A"), arrivals=3, retry_after=False):
-    """a sends `arrivals` events of the expected types to the collecting step c (nw workers)."""
+def collector(nw=2, expected=("A", "A"), arrivals=3, retry_after=False, hold=False):
+    """a sends `arrivals` events of the expected types to the collecting step c (nw workers).
+    hold: the collecting step calls collect_events at once and is still running (gate after the call) while the
+    results of its sibling invocations are applied."""
     tys = list(expected)
     body_a = []
     cnt = {}
@@ -71,8 +73,8 @@ def collector(nw=2, expected=("A", "A"), arrivals=3, retry_after=False):
         body_a.append({"op": "send", "ty": t, "n": k})
     body_a += [G, {"op": "none"}]
     c = {"accepts": sorted(set(tys)), "nw": nw,
-         "body": [G, {"op": "collect", "expected": tys}, {"op": "fail", "until": 1 if retry_after else 0},
-                  {"op": "ret", "ty": "C"}]}
+         "body": ([{"op": "collect", "expected": tys, "hold": True}] if hold else [G, {"op": "collect", "expected": tys}]) +
+                 [{"op": "fail", "until": 1 if retry_after else 0}, {"op": "ret", "ty": "C"}]}
     if retry_after:
         c["retry"] = {"max": 2, "wait": ["fixed", 0]}
     return {"timeout": None, "steps": {
@@ -215,7 +217,7 @@ def resumable_handlers():
         "b": {"accepts": ["A"], "nw": 1, "retry": {"max": 1, "wait": ["fixed", 0]}, "returns": ["Stop"],
               "body": [G, {"op": "fail", "until": 99}, {"op": "none"}]},
         "hs": {"accepts": ["Failed"], "role": "catch_error", "for_steps": ["b"], "max_rec": 2,
-               "body": [G, {"op": "ret", "ty": "A"}]},
+               "body": [G, {"op": "store_set"}, {"op": "ret", "ty": "A"}]},
     }}
 
 
@@ -249,6 +251,8 @@ def family(name, quick=True):
             grid += [(3, ("A", "A", "B"), 5, False), (3, ("A", "A"), 4, False), (2, ("A", "B"), 4, True), (2, ("A", "A", "B"), 6, False)]
         for (nw, exp, arr, ra) in grid:
             out.append(("collector(nw=%d,%s,%d,retry_after=%s)" % (nw, "".join(exp), arr, ra), collector(nw, exp, arr, ra), []))
+        for (nw, exp, arr) in [(2, ("A", "B", "C"), 3), (2, ("A", "A", "B"), 3)] + ([] if quick else [(3, ("A", "B", "C"), 3), (3, ("A", "A", "B"), 6), (2, ("A", "B", "C"), 6)]):
+            out.append(("collector_hold(nw=%d,%s,%d)" % (nw, "".join(exp), arr), collector(nw, exp, arr, False, hold=True), []))
     elif name == "wait":
         out.append(("waiter(no timeout)", waiter(None), [("Resp", None), ("A", None)]))
         out.append(("waiter(timeout=5)", waiter(5), [("Resp", None)]))
